@@ -322,6 +322,7 @@ func init() {
 		"preemption between any two statements of util/hmap, util/list, util/queue and inside lock operations, not inside a statement; ThreadSanitizer sees all accesses, with happens-before edges only from the simulated Mutex/Cond/WaitGroup and goroutine creation",
 		"configuration calls (SetMax, SetCapacity, SetNullValue) are made only in the sequential prologue",
 		"a method that waits for data on an empty queue (Get) is classified by what it waits on (condition vs. its own mutex); only the latter is a violation",
+		"operations taking a second instance of the same type (IntKeyMap.PutAll; found by reflection) run in scenario cross as a.M(b) || b.M(a) || a.M(a) || point reads: nobody may wait for a lock forever and each target keeps its own content; the statement does not make a merge atomic with respect to mutations of its source, so races whose entry point is the merge and missing source keys are not judged",
 		"whole-structure operations (Sort, KeyArray, ToString, enumerations) are checked for self-deadlock only, and read out sequentially at quiescence; they are not mixed into concurrent histories",
 	}
 	assumptionsOf["C10"] = assumptions
